@@ -59,7 +59,7 @@ def run(ctx):
         return Fake
 
     METHODS = {'blockcount', 'sendrawtransaction', 'getrawtransaction', 'gettransaction', 'getutxos', 'getbalance', 'estimatefee',
-               'gettransactions', 'mempool', 'isspent', 'getinfo', 'getblock'}
+               'gettransactions', 'mempool', 'isspent', 'getinfo', 'getblock', 'getrawblock'}
     mod = types.ModuleType('bitcoinlib.services.fakeprov')
     for i in range(K):
         setattr(mod, 'FakeClient%d' % i, make_client(i))
@@ -162,6 +162,9 @@ def run(ctx):
         'mempool': (lambda s: s.mempool(t.txid), lambda i: [t.txid, 'p%d' % i], lambda r: int(r[1][1:]) if isinstance(r, list) and len(r) == 2 else 'fabricated:%r' % (r,)),
         'isspent': (lambda s: s.isspent(t.txid, 0), lambda i: True, lambda r: 'T' if r is True else 'fabricated:%r' % (r,)),
         'estimatefee': (lambda s: s.estimatefee(5), lambda i: 20000 + i, lambda r: r - 20000 if isinstance(r, int) and 20000 <= r < 20010 else 'normalised:%r' % (r,)),
+        'getrawblock': (lambda s: s.getrawblock(700123), lambda i: 'ab' * 80 + '%02x' % i, lambda r: int(r[-2:], 16) if isinstance(r, str) and r.startswith('ab' * 80) else 'fabricated:%r' % (r,)),
+        'getinfo': (lambda s: s.getinfo(), lambda i: {'blockcount': 800000, 'chain': 'main', 'difficulty': 1.0, 'hashrate': 5, 'mempool_size': 900 + i},
+                    lambda r: r['mempool_size'] - 900 if isinstance(r, dict) and set(r) == {'blockcount', 'chain', 'difficulty', 'hashrate', 'mempool_size'} else 'fabricated:%r' % (r,)),
     }
     f36_listed = any(f['id'] == 'F36' for f in ctx.known)
     for qname, (call, answer, who) in queries.items():
@@ -224,6 +227,42 @@ def run(ctx):
                     if got != expected and not (expected == 'false' and got == 'error'):
                         ctx.violation('query result is not the first responding provider\'s answer (or a failure)',
                                       {'op': 'query %s' % qname, 'outcomes': outs, 'max_errors': maxe, 'observed': got, 'expected': expected})
+    # ---- getinputvalues: the value written into an input is the value of that output in one provider's copy of the previous
+    # transaction; when no provider has it the call fails and nothing is invented
+    kprev = Key(4242)
+    def prev_from(i):
+        from datetime import datetime as datetime_, timezone as timezone_
+        tp = Transaction(network='bitcoin', witness_type='segwit')
+        tp.add_input(b'\x99' * 32, 1, keys=[kprev], script_type='sig_pubkey', value=90000, witness_type='segwit')
+        tp.add_output(1111, lock_script=b'\x00\x14' + b'\x01' * 20)
+        tp.add_output(7000 + i, lock_script=b'\x00\x14' + b'\x02' * 20)
+        tp.sign([kprev])
+        tq = Transaction.parse_hex(tp.raw_hex())
+        tq.block_height, tq.confirmations, tq.status, tq.date = 700000, 1000, 'confirmed', datetime_(2021, 1, 1, tzinfo=timezone_.utc)
+        tq.inputs[0].value = 90000
+        tq.update_totals()
+        return tq
+    for outs in itertools.product(['ok', 'empty', 'raise'], repeat=2):
+        srv = new_service(2)
+        for i in range(2):
+            script[i] = {'blockcount': ('ok', 800000), 'gettransaction': {'ok': ('ok', prev_from), 'empty': ('empty',), 'raise': ('raise',)}[outs[i]]}
+            srv.providers['fake%d' % i]['priority'] = 50 - i
+        spend = Transaction(network='bitcoin', witness_type='segwit')
+        spend.add_input(bytes.fromhex(prev_from(0).txid), 1, keys=[Key(77).public()], script_type='sig_pubkey', witness_type='segwit')
+        spend.add_output(500, lock_script=b'\x00\x14' + b'\x03' * 20)
+        ctx.evals += 1
+        ctx.count('query:getinputvalues')
+        ctx.nontrivial.add(hash(('getinputvalues', outs)))
+        try:
+            r = srv.getinputvalues(spend)
+            got = 'value %s' % (r.inputs[0].value - 7000) if r else 'false'
+        except Exception:
+            got = 'error'
+        okp = [i for i, o in enumerate(outs) if o == 'ok']
+        want = ('value %d' % okp[0]) if okp else 'error'
+        if got != want and not (want == 'error' and got == 'false'):
+            ctx.violation('getinputvalues wrote a value that is not the first responding provider\'s (or did not fail)',
+                          {'op': 'query getinputvalues', 'outcomes': outs, 'observed': got, 'expected': want})
     # ---- histories of cached queries (gettransaction on several txids): the Lean cache + provider machine --------------
     txs = []
     for j in range(3):
